@@ -24,7 +24,9 @@ from common import cstr, clist, cfloat, copt, cpair, cz
 THEOREMS = ['C15_tokens_of_appended_options', 'C15_keywords_prefix',
             'C15_keywords_later_wins', 'C15_like_chain_text',
             'C15_like_equals_expanded', 'C15_like_imp_refuted',
-            'C15_like_mat_void_refuted', 'C15_like_re_recognises']
+            'C15_like_mat_void_refuted', 'C15_like_re_recognises',
+            'C15_split_like_card', 'C15_split_then_like_re',
+            'C15_keywords_later_wins_any_scalar']
 TRUSTED = [
     'hand-written model coq/C15/Model.v (modelled, tied by execution only)',
     'environment of the model, filled per deck from the repository\'s own '
